@@ -832,6 +832,13 @@ func genJournal(r *rand.Rand, o GOpts) *GJournal {
 			sep = 0
 			j.Feat["tight"] = true
 		}
+		if i == n-1 && o.on(r, "noeol", 5) {
+			// the file ends with the last character of its last entry: no final line end
+			// (editors do not add one unless asked)
+			j.Feat["noeol"] = true
+			j.Text = strings.TrimSuffix(w.sb.String(), w.nl)
+			return j
+		}
 		for k := 0; k < sep; k++ {
 			w.put("")
 		}
